@@ -92,7 +92,7 @@ def prove(pid, tier):
 def run_cases(casefile, tag):
     impl = os.path.join(V, "work", tag + ".impl"); model = os.path.join(V, "work", tag + ".model")
     rc1, o1 = sh("timeout 1800 %s/build/rbdl_driver %s > %s 2> %s.err" % (V, casefile, impl, impl))
-    rc2, o2 = sh("timeout 1800 %s/build/model_driver %s > %s 2> %s.err" % (V, casefile, model, model))
+    rc2, o2 = sh("timeout 1800 %s/build/model_driver %s %s > %s 2> %s.err" % (V, casefile, impl, model, model))
     return impl, model, (rc1, rc2)
 
 def extract_case(casefile, name):
@@ -253,20 +253,22 @@ def main():
         byl = {}
         for m in corr_only: byl.setdefault(m["label"].split("#")[0], m)
         broken_notes += ["correspondence impl vs L2 model broken on observable '%s' (case %s seq %d: %s)" % (l, m["case"], m["seq"], m["why"]) for l, m in byl.items()]
-    if broken_notes and nviol == 0 and not known_hit:
-        # aimed search: more cases, oracle only
+    if broken_notes and nviol == 0:
+        # a proof obligation or the correspondence broke and no input violating the property is known yet:
+        # aimed search (more cases; the residual lines are evaluated on the implementation's results)
         found = False
         tmp = casefile + ".aim"
         for k in range(cfg.get("aim_rounds", 4)):
             gen_cases.generate(cfg["profile"], seed + 7777 + k, n * 3, tmp, prefix="aim%d_" % k)
             impl2, model2, _ = run_cases(tmp, tag + ".aim")
             rep2 = compare.compare(impl2, model2, skip_labels=cfg.get("skip_labels", ()))
-            if rep2["oracle_mismatch"]:
-                m = rep2["oracle_mismatch"][0]
-                casefile_bak = casefile
+            for m in rep2["oracle_mismatch"][:40]:
                 cl = extract_case(tmp, m["case"])
                 open(casefile, "a").write("\n".join(cl) + "\n")
-                report("oracle", m["label"], m["case"], m["why"]); found = True; break
+                before = nviol
+                report("oracle", m["label"], m["case"], m["why"])
+                if nviol > before: found = True; break
+            if found: break
         if not found:
             # name what no longer checks; attach the first disagreeing case if there is one
             h = hashlib.sha1("\n".join(broken_notes).encode()).hexdigest()[:10]
@@ -275,11 +277,10 @@ def main():
                 f.write("# property %s is no longer shown to hold; no input was found on which it fails\n" % pid)
                 for b in broken_notes: f.write("# " + b + "\n")
                 if corr_only:
+                    f.write("# first input on which implementation and model disagree (replay: tools/check.py %s --replay <this file>)\n" % pid)
                     f.write("\n".join(extract_case(casefile, corr_only[0]["case"])) + "\n")
             nviol += 1
             lines_out.append("VIOLATION property=%s replay=%s no-failing-input-found" % (pid, path))
-    elif corr_only and nviol == 0 and known_hit:
-        pass
 
     for what, cnt in known_hit.items(): print("KNOWN-FINDING: property=%s %s (%d case(s) in this run)" % (pid, what, cnt))
     for l in lines_out: print(l)
